@@ -534,7 +534,7 @@ func ruleBump(c *Ctx) []Ob {
 					continue
 				}
 				if _, typ, f, ok := fieldOf(st.Addr); ok && typ == "span" {
-					s.check(fn == m || fn == ini, shortFn(fn)+":span."+f, c.InstrPos(st), "span state written by the allocator itself", "span."+f+" is written outside (*span).init/Malloc: resetting or rewinding the position re-issues memory that earlier decoded objects still own")
+					s.check(fn == m || fn == ini || isRefillHelper(fn), shortFn(fn)+":span."+f, c.InstrPos(st), "span state written by the allocator itself", "span."+f+" is written outside (*span).init/Malloc (and not by a helper that installs a fresh block): resetting or rewinding the position re-issues memory that earlier decoded objects still own")
 				}
 			}
 		}
@@ -568,6 +568,10 @@ func ruleBump(c *Ctx) []Ob {
 			continue
 		}
 		for _, ins := range b.Instrs {
+			if call, ok := ins.(*ssa.Call); ok && isRefillHelper(call.Call.StaticCallee()) && len(call.Call.Args) == 2 {
+				p0, nb, nn = true, true, true
+				szv = call.Call.Args[1]
+			}
 			st, ok := ins.(*ssa.Store)
 			if !ok {
 				continue
@@ -668,4 +672,37 @@ func ruleBump(c *Ctx) []Ob {
 		s.undec("span.Malloc:align-advance", c.Pos(m.Pos()), "alignment round-up / advance not in the recognised shape ("+why+"): the allocator must be re-confirmed by hand")
 	}
 	return s.obs
+}
+
+// isRefillHelper: a span method (s, sz) that installs a fresh block: p = 0, b = mallocgc(sz, 0, false), n = sz, and nothing else.
+func isRefillHelper(fn *ssa.Function) bool {
+	if fn == nil || fn.Blocks == nil || len(fn.Params) != 2 || namedOf(fn.Params[0].Type()) != "span" || !isInt(fn.Params[1].Type()) {
+		return false
+	}
+	sp, sz := fn.Params[0].Name(), fn.Params[1]
+	p0, nb, nn, other := false, false, false, false
+	for _, b := range fn.Blocks {
+		for _, ins := range b.Instrs {
+			st, ok := ins.(*ssa.Store)
+			if !ok {
+				continue
+			}
+			switch path(st.Addr) {
+			case sp + ".p":
+				v, ok := constInt(st.Val)
+				p0 = ok && v == 0
+			case sp + ".b":
+				if call, ok := st.Val.(*ssa.Call); ok && call.Call.StaticCallee() != nil && call.Call.StaticCallee().Name() == "mallocgc" {
+					if cv, ok := call.Call.Args[0].(*ssa.Convert); ok && cv.X == ssa.Value(sz) {
+						nb = true
+					}
+				}
+			case sp + ".n":
+				nn = st.Val == ssa.Value(sz)
+			default:
+				other = true
+			}
+		}
+	}
+	return p0 && nb && nn && !other
 }
